@@ -58,24 +58,36 @@ Definition sigma_of (b : list (nat * tyexp)) : nat -> option tyexp :=
 Definition subst_desc (b : list (nat * tyexp)) (d : fdesc) : fdesc :=
   mkDesc (d_kw_only d) (d_has_default d) (tsubst (sigma_of b) (d_ty d)).
 
+(* fields declared with a value of their own at a level: their class keeps the value as a class attribute *)
+Fixpoint default_names (items : list item) : list string :=
+  match items with
+  | [] => []
+  | AKwMarker :: r => default_names r
+  | AField n _ d _ :: r => if d then n :: default_names r else default_names r
+  end.
+
 (* one level of the MRO walk: update, then apply this level's bound type variables to everything *)
-(* a redeclared field without a default of its own finds the inherited default through
-   getattr(cls, name): the class attribute set for the base's field *)
-Definition inherit_defaults (plain : list string) (specs own : list (string * fdesc)) : list (string * fdesc) :=
+(* a field redeclared by a bare annotation takes its default from getattr(cls, name): the class attribute of the NEAREST
+   ancestor that declared the field with a value -- a redeclaration without a value in between removes the attribute from its
+   own class only, so the older value shows through (as in the standard library's dataclasses).  [attrs] = the names some
+   earlier level declared with a value. *)
+Definition inherit_defaults (plain attrs : list string) (own : list (string * fdesc)) : list (string * fdesc) :=
   map (fun kv => (fst kv,
-                  if existsb (String.eqb (fst kv)) plain then
-                    match assoc_s (fst kv) specs with
-                    | Some old => mkDesc (d_kw_only (snd kv)) (d_has_default old) (d_ty (snd kv))
-                    | None => snd kv
-                    end
+                  if existsb (String.eqb (fst kv)) plain
+                  then mkDesc (d_kw_only (snd kv)) (existsb (String.eqb (fst kv)) attrs) (d_ty (snd kv))
                   else snd kv)) own.
 
-Definition step_level (specs : list (string * fdesc)) (lv : level) : list (string * fdesc) :=
+Definition step_level (attrs : list string) (specs : list (string * fdesc)) (lv : level) : list (string * fdesc) :=
   map (fun kv => (fst kv, subst_desc (l_bound lv) (snd kv)))
-      (dict_update specs (inherit_defaults (plain_names (l_items lv)) specs (own_specs (l_kw_only lv) (l_items lv)))).
+      (dict_update specs (inherit_defaults (plain_names (l_items lv)) attrs (own_specs (l_kw_only lv) (l_items lv)))).
 
 (* levels from the most basic class to the class itself (reversed MRO) *)
-Definition collect (levels : list level) : list (string * fdesc) := fold_left step_level levels [].
+Fixpoint collect_from (attrs : list string) (specs : list (string * fdesc)) (levels : list level) : list (string * fdesc) :=
+  match levels with
+  | [] => specs
+  | lv :: r => collect_from (default_names (l_items lv) ++ attrs)%list (step_level attrs specs lv) r
+  end.
+Definition collect (levels : list level) : list (string * fdesc) := collect_from [] [] levels.
 
 Definition fields_of (levels : list level) : list (string * fdesc) :=
   let specs := collect levels in
